@@ -371,6 +371,8 @@ class Theory:
         dist.install(I)
         incr.install(I)
         static_lang.install(I)
+        from . import vector
+        vector.install(I)
 
         # observational meaning of concrete choice-map nodes when they flow into abstract callees (C17 lemmas):
         #   Static({})                      is the empty map
@@ -454,12 +456,18 @@ class Theory:
                 head = tuple(tdiff(I, a, b) for a, b in zip(p.head, tg.head))
                 tail = tdiff(I, UVal(p.tail, "tuple"), UVal(tg.tail, "tangents"))
                 return TupleT(head, tail.t)
+            if isinstance(tg, Obj) and tg.cls.name in ("_NoChange", "_UnknownChange") and not isinstance(p, (UVal, TupleT)):
+                return t.Diff(p, tg)
+            chp, cht = externals.tree_children(I, p), externals.tree_children(I, tg)
+            if chp is not None and cht is not None and len(chp[0]) == len(cht[0]) and not isinstance(p, UVal):
+                return chp[1]([tdiff(I, a, b) for a, b in zip(chp[0], cht[0])])
             pt, tt = I.to_u(p), I.to_u(tg)
             r = t.mk_diff(pt, tt)
             I.ctx.assume(t.d_primal(r) == pt)
             I.ctx.assume(t.d_tangent(r) == tt)
             I.ctx.assume(t.d_is_tree(r))
             I.ctx.assume(z3.Implies(tt == t.nc_tree(pt), t.d_nc_all(r)))
+            I.ctx.assume(z3.Implies(z3.And(tt == t.nc_tree(pt), t.d_primal(pt) == pt), r == t.mk_nc(pt)))
             return UVal(r, p.cls if isinstance(p, UVal) else None)
         I.overrides[INC + ":Diff.static_check_no_change"] = scnc
         I.overrides[INC + ":Diff.static_check_tree_diff"] = sctd
